@@ -40,7 +40,8 @@ def pOptNat : List String → Option (Option Nat × List String)
 
 def pKind : String → Option Prim
   | "add" => some .add | "sub" => some .sub | "mul" => some .mul | "neg" => some .neg
-  | "abs" => some .abs | "id" => some .ident | "less" => some .less | _ => none
+  | "abs" => some .abs | "id" => some .ident | "less" => some .less | "mm" => some .matmul
+  | _ => none
 
 mutual
 partial def pGraph : List String → Option (G × List String)
